@@ -109,7 +109,11 @@ Definition check_stream (v : tval) : bool :=
 
 (* ---- tunnel-id strings ---- *)
 Definition check_tid (v : tval) : bool :=
-  bytes_eqb (wire_id (vb (vnth 1 v))) (vb (vnth 2 v)) && bytes_eqb (id_to_string (vb (vnth 2 v))) (vb (vnth 3 v)).
+  let s := vb (vnth 1 v) in
+  let id := vb (vnth 2 v) in
+  (if (length s <=? 16)%nat || (wire_id_variant =? 0) then bytes_eqb (wire_id s) id   (* verbatim / truncating tree *)
+   else (length id =? 16)%nat)                                                       (* hashing tree: H is an oracle *)
+  && bytes_eqb (id_to_string id) (vb (vnth 3 v)).
 
 (* ---- runBidirectionalForward under a schedule ----
    [3; up chunks; down chunks; schedule; up_mid; down_mid; up_final; down_final; up_eofl; down_eofl; counters?; sent; recv] *)
